@@ -63,6 +63,13 @@ class C16Engine(C09.C09Engine):
         self.memo: Dict[Tuple[str, str], Tuple[int, Any]] = {}
         self.last_raised: Optional[Tuple[str, str, str]] = None
         self.dead = False
+        # the "late" renderer classes are process-wide: back to their initial registries
+        self.late_types: Dict[str, List[str]] = {"sql": [], "dbml": []}
+        for lang in ("sql", "dbml"):
+            reg = self.env.renderers[lang]["late"].model_renderers
+            for t in [t for t in reg if t.__name__ not in TAGGED_TYPES_PARTIAL]:
+                del reg[t]
+        self.reg0 = self.registries()
         self.reg0 = self.registries()
 
     # ------------------------------------------------------------ helpers
@@ -99,6 +106,8 @@ class C16Engine(C09.C09Engine):
         if fl == "err" and TYPE_OF[kind] in ERR_TYPES:
             return ["exc", "AttributeError"]
         types = TAGGED_TYPES_FULL if fl in ("tag", "nodb", "err") else TAGGED_TYPES_PARTIAL
+        if fl == "late":
+            types = TAGGED_TYPES_PARTIAL + tuple(self.late_types[lang])
         if fl == "sub" and lang == "sql":
             # the default SQL renderer checks required attributes before dispatching, subclasses inherit that
             try:
@@ -257,6 +266,22 @@ class C16Engine(C09.C09Engine):
             self.orphans(ctx)
             self.trace.append("orphans:accepted")
             return "accepted"
+        if op[0] == "late_register":
+            # a handler is registered on a renderer class through the public decorator after texts were produced
+            _, lang, tn = op
+            if tn in TAGGED_TYPES_PARTIAL or tn in self.late_types[lang] or tn not in TAGGED_TYPES_FULL:
+                return "veto"
+            klass = self.env.renderers[lang]["late"]
+
+            def handler(model: Any, _fl: str = f"late{lang}") -> str:
+                return tag_text(_fl, model)
+            klass.renderer_for(getattr(self.env.C, tn))(handler)
+            self.late_types[lang].append(tn)
+            self.reg0 = self.registries()
+            self.version += 1
+            self.count("fault:handler-registered-after-renderings")
+            self.trace.append("late_register:accepted")
+            return "accepted"
         if op[0] == "render":
             _, h, lang = op
             if h not in self.w.m:
@@ -306,7 +331,8 @@ class C16Engine(C09.C09Engine):
 
 CONFIGS = [("default", "default"), ("tag", "tag"), ("partial", "partial"), ("default", "tag"), ("partial", "default"),
            ("tag", "partial"), ("sub", "sub"), ("sub", "default"), ("default", "sub"), ("nodb", "nodb"), ("nodb", "tag"),
-           ("default", "nodb"), ("err", "err"), ("err", "default"), ("tag", "err")]
+           ("default", "nodb"), ("err", "err"), ("err", "default"), ("tag", "err"), ("late", "late"), ("late", "default"),
+           ("default", "late"), ("late", "late")]
 
 
 def gen_world(rng: random.Random, via: str) -> World:
@@ -361,7 +387,7 @@ def gen_world(rng: random.Random, via: str) -> World:
     return w
 
 
-OPW = {"render": 30, "render_all": 6, "rename_col": 3, "flip_pk": 4, "add": 22, "delete": 16, "rename": 4, "delete_project": 1,
+OPW = {"late_register": 3, "render": 30, "render_all": 6, "rename_col": 3, "flip_pk": 4, "add": 22, "delete": 16, "rename": 4, "delete_project": 1,
        "t_add_col": 4, "t_del_col": 4, "t_del_col_at": 2, "t_add_idx": 3, "t_del_idx": 2, "add_bad": 1, "delete_bad": 1}
 
 
@@ -376,6 +402,9 @@ def draw_op(rng: random.Random, eng: C16Engine, weights: Dict[str, float]) -> Li
         return ["render", h, rng.choice(["sql", "dbml"])]
     if k == "render_all":
         return ["render_all", rng.randrange(1000)]
+    if k == "late_register":
+        return ["late_register", rng.choice(["sql", "dbml"]),
+                rng.choice([t for t in TAGGED_TYPES_FULL if t not in TAGGED_TYPES_PARTIAL])]
     if k == "flip_pk":
         return ["flip_pk", rng.choice(w.handles("column"))]
     if k == "rename_col":
